@@ -1117,19 +1117,19 @@ def one_journal(ctx, res, j, opts, tag):
                 res.disagreements.append(dict(name='C05/own-amount', case=case, impl=[r[0], canon_value(r[3])], model=mown.get(r[0])))
                 break
         if regd is not None:
-            # collapsed rows, per transaction, as sets
+            # collapsed rows, per transaction, in order (the totals map is ordered by account name)
             groups = []
             for r in regd:
                 if not groups or groups[-1][0] != r[5]:
                     groups.append((r[5], []))
                 groups[-1][1].append('%s|%s' % (r[0], canon_value(r[1])))
-            icol = [sorted(g) for _, g in groups]
+            icol = [g for _, g in groups]
             mcol = {}
             for x in m:
                 if x.startswith('col '):
                     _, k, rest = x.split(' ', 2)
                     mcol.setdefault(int(k), []).append(rest)
-            mcol = [sorted(mcol[k]) for k in sorted(mcol)]
+            mcol = [mcol[k] for k in sorted(mcol)]
             if icol != mcol:
                 res.disagreements.append(dict(name='C05/reg-depth-rows', case=case, impl=icol[:4], model=mcol[:4]))
         # ---------------- bookkeeping
@@ -1252,6 +1252,9 @@ def replay(ctx, obj):
             cmdline(['reg', '--empty', '--no-rounding', '--now', NOW] + o.filter_args() + ['--format', REG_FMT] + o.query_args()),
             cmdline(['bal', '--now', NOW] + o.bal_args() + ['--format', BAL_FMT] + o.query_args()),
             'accounts']
+    if o.depth is not None:
+        cmds.append(cmdline(['reg', '--empty', '--no-rounding', '--now', NOW] + o.filter_args() +
+                            ['--depth', str(o.depth), '--format', REG_FMT] + o.query_args()))
     blocks = lib.run_repl(path, cmds)
     aux_bal, _ = parse_rows(blocks[0], 6)
     reg, _ = parse_rows(blocks[1], 7)
@@ -1259,7 +1262,8 @@ def replay(ctx, obj):
     exist = accounts_of(l.strip() for l in blocks[3].split('\n') if l.strip())
     viol = []
     g = oracle_filterset(None, '', aux_bal, reg, viol, case)
-    oracle_optset(o, bal, reg, None, g, viol, case)
+    regd = parse_rows(blocks[4], 7)[0] if o.depth is not None else None
+    oracle_optset(o, bal, reg, regd, g, viol, case)
     oracle_tree(o, bal, reg, aux_bal, exist, g, viol, case)
     for v in viol:
         print('replay: %s: %s (observed %s, required %s)' % (v['key'], v['desc'], v['observed'], v['required']))
